@@ -155,6 +155,22 @@ example : (start {} demo).2 = .ok ∧ (start {} demo).1.log.map (·.id) = [1, 2,
   rw [start_eq_fuel {} 20 demo (by decide)]
   decide
 
+/-- re-entrant control calls from inside a running action — `advance_to(later)`, `advance_by(0)`, `start()`, an
+out-of-range `advance_to` caught by the action — return at once and change nothing: the outer run still
+executes everything queued behind the action (`start_runs_all_uncancelled` applies: `noStop` allows them) -/
+private def reent : St :=
+  ((({ clock := 3 } : St).enqueue 1 3 (.ctl (.advTo 9 false) (.ctl (.advBy 0 false) (.ctl .start (.ctl (.advTo 1 true) .done)))) false).enqueue 2 3 .done false).enqueue 3 4 .done false
+
+example : (start {} reent).2 = .ok ∧ (start {} reent).1.log.map (fun r => (r.id, r.at_)) = [(1, 3), (2, 3), (3, 4)] ∧
+    (start {} reent).1.queue.items = [] := by
+  rw [start_eq_fuel {} 20 reent (by decide)]
+  decide
+
+example : QAll noStop reent := by
+  intro e he
+  simp [reent, St.enqueue, PQ.enqueue] at he
+  rcases he with rfl | rfl | rfl <;> simp [Act.All, noStop]
+
 example : QAll noStop demo ∧ demo.enabled = false ∧ CountInv demo := by
   refine ⟨?_, rfl, by simp [CountInv, demo, St.enqueue, PQ.enqueue]⟩
   intro e he
